@@ -36,6 +36,9 @@ CLAIMS = {
  "C18": dict(technique="TLC model checking of Dom!EqOk (I-model of operator== vs JSON equality) + replay with equality verdicts from the R-model",
    text="Dom!IEq transcribes operator== (size check, per-member lookup in rhs through its map if any, kind-and-value number compare) and TLC checks on every reachable pair (root, aux) of the DOM state machine that it equals JSON equality REq in both directions, is reflexive and holds for deep copies, whatever capacities, ownership kinds and maps; on replay, after every step, root==aux, aux==root and != are compared with REq, and a deep copy in another allocator type and the parse of Dump() must be == to the original.",
    note="Equality is specified for duplicate-free values only (as the property says); steps whose values contain duplicate keys skip the verdict.", ref="4/C18"),
+ "C16": dict(technique="TLC model checking of the pool-allocator state machine (spec/Pool.tla) + replay of TLC-simulated behaviours on the real MemoryPoolAllocator",
+   text="spec/Pool.tla models the chunk list (only the head serves), bump allocation with AddChunk on overflow, both chunk policies, Realloc (no shrink, in-place growth iff most recent block and room, else copy), Clear and refcounted handles, with memory contents as per-word tags; TLC checks alignment, one-chunk containment, disjointness, undisturbed contents, accounting and pool lifetime exhaustively to a depth bound in 4-5 configurations (simple/adaptive policy, aligned and misaligned user buffer); simulated behaviours are replayed on MemoryPoolAllocator<tracking base allocator> and the same properties are evaluated on the real addresses, block contents, Size() and Capacity() after every step.",
+   note="Chunk sizes are scaled (64/256 bytes, adaptive max 256 via -DSONIC_ALLOCATOR_MAX_CHUNK_CAPACITY) so that chunk edges are reached in short behaviours. Predicted Size()/Capacity() are DRIFT-only.", ref="4/C16"),
 }
 
 def main():
